@@ -126,7 +126,7 @@ def run(ctx):
         for s in load_corpus():
             yield (s, "corpus")
         wf = WFGen(rng, max_hosts=300)
-        for _ in range(4000 if ctx.quick() else 40000):
+        for _ in range(3200 if ctx.quick() else 40000):
             yield (gen_malformed(rng, wf, dist), "generated")
         if ctx.tier == "thorough":
             dist["exhaustive"] = 0
@@ -163,6 +163,10 @@ def run(ctx):
         dist["classes(spec -> impl)"] = dict(sorted(classes.items(), key=lambda kv: -kv[1])[:40])
         if not ctx.replay:
             cli_check(ctx, hl, dist, cov)
+        else:
+            rep = json.load(open(ctx.replay))
+            if rep["case"].get("origin") == "cli":
+                cli_check(ctx, hl, dist, cov, only=unhx(rep["case"]["expr_hex"]))
     cov["distribution"] = dist
     cov["traces_validated_against_impl"] = cov["evaluations"]
     for b in ctx.broken[:4]:
@@ -180,7 +184,7 @@ def run(ctx):
         checker_cmd="lake build PdshVerif.Props.C15 && #print axioms on every theorem of Props/C15.lean")
 
 
-def cli_check(ctx, hl, dist, cov):
+def cli_check(ctx, hl, dist, cov, only=None):
     """pdsh -Q -w TEXT: exit status and diagnostic class against the model, safety against the text"""
     rng = ctx.rng
     cli = Cli(ctx)
@@ -190,8 +194,8 @@ def cli_check(ctx, hl, dist, cov):
     fixed = [b"a[0-99999999999999999999]", b"a[1-99999]", b"a[2-1]", b"a[1", b"a]", b"a[1x-3]", b"a[1-3],b]",
              b"a[18446744073709551614-18446744073709551615]", b"a[0-99999999999999999999]x", b"a[1]]", b"x" * 1023]
     nslow = 0
-    cases = list(fixed)
-    n = 60 if ctx.quick() else 1500
+    cases = list(fixed) if only is None else [only]
+    n = (60 if ctx.quick() else 1500) if only is None else 0
     d2 = {}
     tries = 0
     while len(cases) < n and tries < 50 * n:
